@@ -30,6 +30,7 @@ TRUSTED = [
 
 KEY_SELF = "self-assignment-clears-grid"
 KEY_END = "copygrid-outputs-end-beyond-range"
+KEY_CDATA = "subrange-copy-construction-data-keeps-source-outputs"
 OUT_TAGS = ("values", "coef", "evalb", "eval", "evalf", "integ", "cpvals")
 
 
@@ -93,6 +94,30 @@ def gen_source(r, si):
             "seed": r.randint(0, 10 ** 9)}
 
 
+def corpus_sources():
+    """always-run sources: a grid without outputs of every family (the local polynomial one caches its parent graph, which write() emits),
+    and a Global grid under construction with parked samples (sub-range copies of its construction data)"""
+    out = []
+    specs = [{"family": "localp", "dims": 2, "outs": 0, "ll": [], "rule": "localp", "order": 1, "depth": 2},
+             {"family": "localp", "dims": 1, "outs": 0, "ll": [], "rule": "semi-localp", "order": 2, "depth": 3},
+             {"family": "global", "dims": 2, "outs": 0, "ll": [], "rule": "clenshaw-curtis", "type": "level", "depth": 2, "aw": []},
+             {"family": "sequence", "dims": 2, "outs": 0, "ll": [1, 2], "rule": "leja", "type": "level", "depth": 2, "aw": []},
+             {"family": "wavelet", "dims": 1, "outs": 0, "ll": [], "order": 1, "depth": 2},
+             {"family": "fourier", "dims": 1, "outs": 0, "ll": [], "type": "level", "depth": 2, "aw": []}]
+    for i, sp in enumerate(specs):
+        out.append({"id": "z%d" % i, "spec": sp, "kind": "fresh", "lines": [gl.make_cmd(sp, "a")], "trans": None, "cand": None, "fn": "hash", "seed": 1000 + i})
+    for i, (fam, rule) in enumerate([("global", "clenshaw-curtis"), ("global", "leja"), ("fourier", None), ("sequence", "rleja"), ("localp", "localp"), ("wavelet", None)]):
+        sp = {"family": fam, "dims": 2, "outs": 3, "ll": [], "depth": 1, "type": "level", "aw": []}
+        if rule:
+            sp["rule"] = rule
+        if fam in ("localp", "wavelet"):
+            sp["order"] = 1
+        cand = ("cand a surp 0x0p+0 classic -1" if fam in ("localp", "wavelet") else "cand a aw level aw: 1 1")
+        out.append({"id": "y%d" % i, "spec": sp, "kind": "construct-empty", "lines": [gl.make_cmd(sp, "a"), "begin a", cand, "@DELIVER@"],
+                    "trans": None, "cand": cand, "fn": "hash", "seed": 2000 + i})
+    return out
+
+
 def probes_for(r, src):
     spec = src["spec"]
     if src["kind"] == "empty":
@@ -111,7 +136,7 @@ def digest_cmds(slot, src, probes, evals=True):
         cmds = ["dump %s meta allpoints needed pidx nidx" % slot, "dump %s qw" % slot, "xdump %s parked" % slot]
     if spec["family"] in ("localp", "wavelet"):
         cmds.append("dump %s hsupport" % slot)
-    if spec["family"] in ("global", "sequence"):
+    if spec["family"] in ("global", "sequence") and src["kind"] not in ("construct", "construct-empty"):
         cmds.append("dump %s polyi" % slot)
     if spec["family"] in ("global", "fourier"):
         cmds.append("dump %s tensors" % slot)
@@ -146,7 +171,8 @@ def mutations(r, src, slot, outs):
         m.append("setcoef %s hash" % slot)
         if fam == "localp":
             m.append("remtol %s 0x1p-3 -1" % slot)
-        if not conf:   # (the conformal map is inverted numerically; node recognition under it belongs to C10)
+        nested = not (fam == "global" and spec["rule"] in gl.GLOBAL_NONNESTED)
+        if not conf and nested:   # (the conformal map is inverted numerically: node recognition under it belongs to C10; construction needs nested rules)
             m += ["begin %s" % slot, candc, "deliver %s hash idx: 0" % slot, "deliver %s hash idx: 2 1" % slot, "finish %s" % slot]
     u = gl.update_cmd(r, spec, slot)
     if u:
@@ -262,7 +288,7 @@ def run(res, tier, seed, replay_sources=None):
     os.makedirs(wd, exist_ok=True)
     r = vlib.rng(seed, PID)
     nsrc = {"quick": 110, "thorough": 900}[tier] * (3 if proof_broken else 1)
-    sources = replay_sources if replay_sources is not None else [gen_source(r, i) for i in range(nsrc)]
+    sources = replay_sources if replay_sources is not None else corpus_sources() + [gen_source(r, i) for i in range(nsrc)]
     stats = {"sources": 0, "equality_cases": 0, "mutation_cases": 0, "mutations_applied": 0, "redigests": 0, "violations": 0, "asan_cases": 0,
              "subrange_copies": 0, "split_arrays": 0, "byte_images_compared": 0, "sources_skipped": 0, "special_cases": 0}
 
@@ -334,7 +360,10 @@ def run(res, tier, seed, replay_sources=None):
                 evo = s["loaded"] and oo > 0
                 dg = digest_cmds(other, s, s["probes"], evo)
                 # the mutated object is observed too (cheap digest): after the same calls a full copy must behave like its source
-                ds = ["dump %s meta needed nidx pidx" % side, "dump %s coef" % side, "xdump %s parked" % side]
+                if (outs if side == "a" else e - b) == 0:
+                    ds = ["dump %s meta" % side]     # (grids without outputs: only the meta data is observed on the mutated object)
+                else:
+                    ds = ["dump %s meta allpoints needed nidx pidx values" % side, "dump %s coef" % side, "xdump %s parked" % side]
                 muts = mutations(vlib.rng(s["seed"], "mut", mi), s, side, outs if side == "a" else (e - b))
                 ls = ["case " + cid] + s["script"] + copy_cmd(kind, b, e) + dg
                 for m in muts:
@@ -429,6 +458,7 @@ def run(res, tier, seed, replay_sources=None):
             sib = out2.get(cid[:-1] + ("b" if side == "a" else "a"), [])
             base = steps[npre:npre + nd]
             pos = npre + nd
+            last_cand = next((x.obs.get("cand") for x in reversed(steps[:npre]) if x.cmd.startswith("cand") and x.exc is None), None)
             for mi, m in enumerate(muts):
                 if pos >= len(steps):
                     break
@@ -453,6 +483,36 @@ def run(res, tier, seed, replay_sources=None):
                          "observing the other side after %s -> %s" % (m[:60], cr[0].exc if cr else "output truncated"), cid, s)
                     break
                 stats["redigests"] += 1
+                mt = m.split()
+                if mt[0] == "cand" and ms.exc is None:
+                    last_cand = ms.obs.get("cand", [])
+                if mt[0] == "deliver" and ms.exc is None and len(mine) == nself and mine[0].exc is None and last_cand is not None:
+                    # samples delivered to this object must be stored with the values supplied (also on a sub-range copy under construction)
+                    d_ = s["spec"]["dims"]
+                    no_ = (s["outs"] if side == "a" else e - b)
+                    ids = [int(v) for v in mt[mt.index("idx:") + 1:]]
+                    want = {}
+                    for q in ids:
+                        co = last_cand[q * d_:(q + 1) * d_]
+                        if len(co) == d_:
+                            want[tuple(float(v + 0.0).hex() for v in co)] = [con.gl.fn_value(mt[2], list(co), j) for j in range(no_)]
+                    mm = mine[0].obs.get("meta", {})
+                    nl = int(mm.get("loaded", 0))
+                    pts, vals = mine[0].obs.get("allpoints", []), mine[0].obs.get("values", [])
+                    stats["delivered_values_checked"] = stats.get("delivered_values_checked", 0) + 1
+                    if nl > 0 and len(pts) >= nl * d_ and len(vals) == nl * no_ and int(mm.get("needed", 0)) == 0:
+                        for j in range(nl):
+                            kk = tuple(float(v + 0.0).hex() for v in pts[j * d_:(j + 1) * d_])
+                            if kk in want and bits(vals[j * no_:(j + 1) * no_]) != bits(want[kk]):
+                                key = ("%s:%s" % (KEY_CDATA, fam)) if (kind == "range" and side == "b" and fam in ("global", "fourier")) else \
+                                      "delivered-value-misstored-after-copy:%s" % fam
+                                viol(key, "after %s on the %s (copy kind %s%s) the loaded value at %s is %s, supplied %s"
+                                     % (m[:50], "source" if side == "a" else "copy", kind, " %d %d" % (b, e) if kind == "range" else "",
+                                        pts[j * d_:(j + 1) * d_], vals[j * no_:(j + 1) * no_], want[kk]), cid, s)
+                                break
+                    elif len(vals) != nl * no_ and nl > 0:
+                        key = ("%s:%s" % (KEY_CDATA, fam)) if (kind == "range" and side == "b" and fam in ("global", "fourier")) else "values-size-after-copy:%s" % fam
+                        viol(key, "after %s on the %s the value array has %d entries for %d points x %d outputs" % (m[:50], "source" if side == "a" else "copy", len(vals), nl, no_), cid, s)
                 if kind != "range" and side == "a" and len(mine) == nself and len(theirs) == nself and mpos < len(sib):
                     # the same call on the source (this case) and on a full copy (sibling case) must have the same effect
                     stats["behaviour_compared"] = stats.get("behaviour_compared", 0) + 1
@@ -488,12 +548,17 @@ def run(res, tier, seed, replay_sources=None):
 
     # ---- the same scripts under ASan/UBSan (a sample in the quick tier)
     rs = vlib.rng(seed, PID, "asan")
-    asel = [x for x in scripts if rs.random() < ({"quick": 0.3, "thorough": 0.4}[tier])]
+    def must(x):
+        pl = plan.get(x[0][5:])
+        return pl is not None and pl[0] == "M" and pl[2] == "range" and pl[1]["kind"] in ("construct", "construct-empty")
+    asel = [x for x in scripts if must(x) or rs.random() < ({"quick": 0.3, "thorough": 0.4}[tier])]
     asan_env = dict(os.environ, ASAN_OPTIONS="detect_leaks=0:abort_on_error=0:exitcode=99", UBSAN_OPTIONS="print_stacktrace=1")
     nproc = max(1, min(vlib.NCPU, len(asel)))
     chunks = [[] for _ in range(nproc)]
     for i, x in enumerate(asel):
-        chunks[i % nproc] += x
+        # (getLoadedValues() of a grid without loaded points forms &values[0] of an empty vector: harmless, but UBSan stops on it;
+        #  the value arrays of the mutated object are only compared in the plain build)
+        chunks[i % nproc] += [l.replace(" nidx pidx values", " nidx pidx") for l in x]
 
     def one(i):
         return con.run_scripts(drv_asan, chunks[i], wd, "asan_%d" % i, timeout=1700, case_timeout=120, env=asan_env)
@@ -509,6 +574,12 @@ def run(res, tier, seed, replay_sources=None):
                         continue
                     if plan[cid][0] == "X":
                         viol(KEY_END, "sanitizer: copyGrid(source, 1, outputs+3) reads beyond the value arrays (%s)" % (bad[0].exc,), cid, s)
+                        continue
+                    pl = plan[cid]
+                    if (pl[0] == "M" and pl[2] == "range" and pl[8] == "b" and s["spec"]["family"] in ("global", "fourier")
+                            and bad[0].cmd.split()[0] == "deliver" and "ejectCompleteTensor" in se):
+                        viol("%s:%s" % (KEY_CDATA, s["spec"]["family"]), "sanitizer: loadConstructedPoints on a sub-range copy of a grid under construction reads beyond the "
+                             "restricted value blocks in DynamicConstructorDataGlobal::ejectCompleteTensor (num_outputs of the source is kept) at '%s'" % bad[0].cmd[:50], cid, s)
                         continue
                     rep = ""
                     k = se.find("ERROR: AddressSanitizer")
